@@ -262,6 +262,24 @@ def check_roundtrip(case):
     return fails, (len(x), n)
 
 
+@kind("average-long")
+def check_average_long(case):
+    from mc.harness import shrink
+    L, n = case["L"], case["n"]
+    x = A.long_grid(L, "gaps")
+    y = [float((5 * i) % 7 - 2) + 0.01 * i for i in range(L)]      # not stationary: a misaligned block shows
+    fails, sig = check_average({"x": x, "y": y, "n": n})
+    return shrink(fails, long=True), sig
+
+
+@kind("roundtrip-long")
+def check_roundtrip_long(case):
+    from mc.harness import shrink
+    m, n = case["m"], case["n"]
+    fails, sig = check_roundtrip({"x": A.long_grid(m, "gaps"), "y": [float((3 * i) % 5 - 1) + 0.5 * i for i in range(m)], "n": n})
+    return shrink(fails, long=True), sig
+
+
 @kind("integrals")
 def check_integrals(case):
     S = _S()
@@ -452,7 +470,31 @@ def harnesses(tier, seed):
             ops.append(ctx.choose(IV_OPS, "op%d" % d))
         judge(ctx, check_interval_history, {"L": L, "n": n, "ops": [list(o) for o in ops]}, calls=4 * len(ops))
 
-    return [{"name": "interval-histories", "body": b_interval_history},
+    lsizes = A.sizes(40, 2300 if quick else 70000)
+    thresholds = sorted(set([64, 128, 256, 512, 1024] + A.code_constants(lo=16, hi=(2300 if quick else 70000), exclude="datasets")))
+
+    def b_long(ctx):
+        what = ctx.choose(["average", "roundtrip", "interval-view"], "what")
+        n = ctx.choose(list(range(1, 18)) + [31, 32, 33, 64], "n")
+        if what == "average":
+            for L in lsizes:
+                if L > 40:
+                    judge(ctx, check_average_long, {"L": L, "n": n}, bulk=True)
+        elif what == "roundtrip":
+            if n < 2:
+                return
+            for c in thresholds:
+                for m in sorted({c // n + 1, c // n + 2, c // n + 3, 2 * c // n + 2}):     # m*n crosses the threshold
+                    if m >= 2:
+                        judge(ctx, check_roundtrip_long, {"m": m, "n": n}, calls=3, bulk=True)
+        else:
+            for L in lsizes:
+                if 40 < L <= 1100:
+                    judge(ctx, check_interval, {"L": L, "n": n}, calls=2 * L + 12, bulk=True)
+
+    return [{"name": "long-arrays", "body": b_long,
+             "bound_text": "lengths %s and oversampled lengths just above %s; interval sizes 1..17, 31..33, 64" % ([v for v in lsizes if v > 40], thresholds)},
+            {"name": "interval-histories", "body": b_interval_history},
             {"name": "oversample", "body": b_oversample}, {"name": "extend", "body": b_extend},
             {"name": "append", "body": b_append}, {"name": "interval-view", "body": b_interval},
             {"name": "average", "body": b_average}, {"name": "average-roundtrip", "body": b_roundtrip},
